@@ -1533,7 +1533,7 @@ class RTCSctpTransport(AsyncIOEventEmitter):
         if state == self.State.ESTABLISHED:
             self.__state = "connected"
             for channel in list(self._data_channels.values()):
-                if channel.negotiated and channel.readyState != "open":
+                if channel.negotiated and channel.readyState == "connecting":
                     channel._setReadyState("open")
             asyncio.ensure_future(self._data_channel_flush())
         elif state == self.State.CLOSED:
